@@ -4,7 +4,7 @@
    on every run (Gen/GenScalars.v, Gen/GenGates.v). *)
 From Coq Require Import ZArith List Bool String.
 Require Import Base.Outcome Model.Values Model.Vocab Model.Types Model.Conv.
-Require Import Gen.GenScalars Gen.GenGates Lemmas.StrictLemmas.
+Require Import Gen.GenScalars Gen.GenGates Lemmas.StrictLemmas Lemmas.TypedLemmas.
 Import ListNotations.
 
 (* complete finite sweep: every (scalar target, kind) cell *)
@@ -49,3 +49,10 @@ Theorem C02_same_kind_is_identity : forall s v x,
   tc (TScalar s) v = Ok x -> kind_of v = scalar_kind s -> x = v.
 Proof. exact scalar_same_kind_identity. Qed.
 Print Assumptions C02_same_kind_is_identity.
+
+(* members (enum) and variants (tagged union) are matched by value AND kind: after the value type's
+   own conversion, 1.0 is not the member valued 1, True is not the tag 1 *)
+Theorem C02_enum_member_has_the_kind_of_the_value : forall n members x mname v,
+  enum_lookup n members x = ROk (VEnum n mname v) -> In (mname, v) members /\ kind_of x = kind_of v /\ py_eqb x v = true.
+Proof. exact enum_lookup_same_kind. Qed.
+Print Assumptions C02_enum_member_has_the_kind_of_the_value.
